@@ -89,17 +89,37 @@ def patched(sched, adj=None, agg_threshold=None, bw_threshold=None):
                 mod.ChunksizeAdjuster = factory
         if bw_threshold is not None:
             import s3transfer.bandwidth as bwm
+            import s3transfer.manager as mgrm
             realbls = bwm.BandwidthLimitedStream
+            realbucket = mgrm.LeakyBucket
+            sched.bw_moved = 0
+            sched.bw_consumed = 0
 
             class ScaledBLS(realbls):
+                # same class, scaled default threshold; counts the bytes
+                # that pass while limiting is enabled
                 def __init__(self, fileobj, leaky_bucket,
                              transfer_coordinator, time_utils=None,
                              bytes_threshold=bw_threshold):
                     super().__init__(fileobj, leaky_bucket,
                                      transfer_coordinator, time_utils,
                                      bytes_threshold)
+
+                def read(self, amount):
+                    data = super().read(amount)
+                    if self._bandwidth_limiting_enabled:
+                        sched.bw_moved += len(data)
+                    return data
+
+            class CountingBucket(realbucket):
+                def consume(self, amt, request_token):
+                    r = super().consume(amt, request_token)
+                    sched.bw_consumed += amt
+                    return r
             saved.append((bwm, 'BandwidthLimitedStream', realbls))
             bwm.BandwidthLimitedStream = ScaledBLS
+            saved.append((mgrm, 'LeakyBucket', realbucket))
+            mgrm.LeakyBucket = CountingBucket
         if agg_threshold is not None:
             up = m['upload']
             realagg = up.AggregatedProgressCallback
